@@ -53,6 +53,9 @@ theorem later_ops_send_nothing (c : C) (i code : Nat) (ch : Chan) (hi : c.chans[
 
 /-! ## (b) the application closes a channel -/
 
+/-- the early-return guard of `Channel.close()` is `not self.is_open` (regenerated) -/
+theorem gen_close_guard : Gen.Close.closeBacksOffUnlessOpen = true := by decide
+
 /-- `stop_consuming` sends a Basic.Cancel for every consumer that was active -/
 theorem stop_cancels_all (tags : List String) : stopConsuming tags = tags := by
   simp [stopConsuming, gen_flags.2.1]
@@ -68,13 +71,13 @@ theorem app_close_once (c : ChanSt) (code : Nat) (text : String) (e : RpcEnd)
     (chanClose c code text false e).1 = c.tags.map Sent.cancel ++ [Sent.close code text] ∧
     (chanClose c code text false e).2.1 = { c with state := closed, tags := [], inbound := 0 } ∧
     ((chanClose c code text false e).2.2 = true ↔ e ≠ .closeOk) := by
-  simp [chanClose, hopen, hup, stop_cancels_all]
+  simp [chanClose, hopen, hup, stop_cancels_all, gen_close_guard]
 
 theorem app_close_exactly_one_close_frame (c : ChanSt) (code : Nat) (text : String) (fail : Bool) (e : RpcEnd)
     (hopen : c.state = open_) (hup : c.connClosed = false) :
     ((chanClose c code text fail e).1.filter (fun s => match s with | .close _ _ => true | _ => false)) =
       [Sent.close code text] := by
-  simp only [chanClose, hopen, hup, ne_eq, not_true_eq_false, Bool.false_eq_true, or_self, if_false]
+  simp only [chanClose, hopen, hup, gen_close_guard, ne_eq, not_true_eq_false, Bool.false_eq_true, or_self, if_false, if_true]
   rw [List.filter_append]
   have : ∀ l : List String, (l.map Sent.cancel).filter (fun s => match s with | .close _ _ => true | _ => false) = [] := by
     intro l; induction l <;> simp_all
@@ -87,7 +90,21 @@ theorem app_close_again_sends_nothing (c : ChanSt) (code : Nat) (text : String) 
     (hclosed : c.state = closed) :
     (chanClose c code text f e).1 = [] ∧ (chanClose c code text f e).2.1.state = closed := by
   have : closed ≠ open_ := by decide
-  simp [chanClose, hclosed, this]
+  simp [chanClose, hclosed, this, gen_close_guard]
+
+/-- **A `close()` that finds the channel already CLOSING (another closer, or the broker's close being
+    handled) or OPENING sends no Channel.Close**: it only completes the local shutdown. -/
+theorem app_close_on_nonopen_sends_no_close (c : ChanSt) (code : Nat) (text : String) (f : Bool) (e : RpcEnd)
+    (hn : c.state ≠ open_) :
+    ((chanClose c code text f e).1.filter (fun s => match s with | .close _ _ => true | _ => false)) = [] ∧
+    (chanClose c code text f e).2.1.state = closed ∧ (chanClose c code text f e).2.2 = false := by
+  have hf : ∀ l : List String, (l.map Sent.cancel).filter (fun s => match s with | .close _ _ => true | _ => false) = [] := by
+    intro l; induction l <;> simp_all
+  simp only [chanClose, gen_close_guard, if_true, hn, ne_eq, not_false_eq_true, or_true]
+  refine ⟨?_, trivial, trivial⟩
+  split
+  · exact hf _
+  · rfl
 
 /-- Full statement for two *concurrent* closers: only one Channel.Close goes out. -/
 def TwoClosersSendOne : Prop :=
